@@ -16,7 +16,7 @@ from vlib import core
 
 PID = 'C18'
 META = {
-    'text': 'Theorems (unbounded: every history of appends, every completion time, every window and limit, every calendar obeying three interval laws) over an executable Gallina model of chronicle.append/_load/find and of the chronicle call of schedule.complete: an append adds exactly one copy of the entry to its (day, run id) file and preserves every file in order; complete appends exactly one entry carrying the reply data; find(after, before) is a permutation of the recorded entries of the requested status with after < completed < before, sorted newest first; find(before, limit) and find(limit) return the first limit entries of that list with after = 1980-01-01 (resp. before = now); the day walk never runs out of fuel. Tied to the real code by correspondence on real files in a temp directory with frozen clocks (day, month, year boundaries, 29 Feb; bounds at arbitrary times of day) and by a brute-force window oracle on the implementation.',
+    'text': 'Theorems (unbounded: every history of appends, every completion time, every window and limit, every calendar obeying three interval laws) over an executable Gallina model of chronicle.append/_load/find and of the chronicle call of schedule.complete: an append adds exactly one copy of the entry to its (day, run id) file and preserves every file in order; complete appends exactly one entry carrying the reply data; find(after, before) is a permutation of the recorded entries of the requested status with after < completed < before, sorted newest first; find(before, limit) and find(limit) return the first limit entries of that list with after = 1980-01-01 (resp. before = now); the day walk never runs out of fuel; df_model_statistics (the front-end consumer of the history) reports the run with the highest id among the recorded failed/succeeded entries of the node completed since boot, its latest completion and its outcome (C18_stats). Tied to the real code by correspondence on real files in a temp directory with frozen clocks (day, month, year boundaries, 29 Feb; bounds at arbitrary times of day) and by a brute-force window oracle on the implementation; the real fe.api.df_model_statistics and fe.api.schedule.failed/succeeded run between the queries and every answer is relabelled in place as the front end does, so that answers sharing state with the journal are noticed.',
     'note': 'Trusted: Coq kernel; hand model Model/Chron.v + correspondence driver (temp directory, frozen clocks, stand-in job for schedule.complete); tick/name-code conversion and the brute-force oracle in props/C18.py; the Gregorian calendar instance satisfies the three laws (checked by vm_compute for 1980..2100, tested against the real directory walk); CPython sort stability, os.listdir, json. Not covered: crash during the JSON rewrite, concurrent appenders; find(after, limit) without before (documented to return the oldest entries, returns the oldest of the newest days: modelled as is, outside the property statement).',
     'technique': 'Coq proof over hand model (fuelled walk, permutation + sortedness); model/implementation correspondence on real files; brute-force specification oracle',
 }
